@@ -85,8 +85,12 @@ class ConfigValue:
                 except KeyError:
                     return self.type[s.upper()]
         if issubclass(self.type, Mapping):
+            if not s.strip():
+                return self.type()
             return self.type((p2.strip() for p2 in p.strip().split("=")) for p in s.split(","))
         if issubclass(self.type, Iterable):
+            if not s.strip():
+                return self.type()
             return self.type(p.strip() for p in s.split(","))
 
         return self.type(s)
